@@ -52,6 +52,7 @@ type sys struct {
 	prefix string
 	offset int // log offset of the last restart
 	cat    *sfake.MetaOp
+	g0     [3]float64 // the task-number gauges when the case (or its last restart) began
 }
 
 func (s *sys) id(k int) string { return fmt.Sprintf("%st%d", s.prefix, k) }
@@ -129,6 +130,9 @@ func (s *sys) apply(o oper) int {
 		_, err := s.cdc.Get(&request.GetRequest{TaskID: s.id(o.k)})
 		return code(err)
 	default:
+		// a process start: the task-number metric starts empty
+		metrics.VerifResetTaskNum()
+		s.g0 = [3]float64{}
 		s.boot()
 		if o.fk != "" {
 			s.w.FailNext(o.fk, o.fn)
@@ -143,7 +147,8 @@ func viewCoq(st meta.TaskState, reason string) string {
 	return fmt.Sprintf("(Some {| v_state := %s; v_reason := %s |})", n, cq.Bool(reason != ""))
 }
 
-func (s *sys) observe(c int, ntasks int, restarted bool, g0 [3]float64) string {
+func (s *sys) observe(c int, ntasks int, restarted bool) string {
+	g0 := s.g0
 	snap := s.cdc.VerifSnapshot()
 	memv := map[string]server.VerifTask{}
 	for _, t := range snap.Tasks {
@@ -193,11 +198,8 @@ func (s *sys) observe(c int, ntasks int, restarted bool, g0 [3]float64) string {
 		sort.Strings(q)
 		es = append(es, cq.Pair(cq.Str(e.Key), cq.Pair(cq.Z(int64(e.RefCnt)), cq.Strs(q))))
 	}
-	g := "None"
-	if !restarted {
-		a, b, cc := gauges()
-		g = fmt.Sprintf("(Some (%s, %s, %s))", cq.Z(int64(a-g0[0])), cq.Z(int64(b-g0[1])), cq.Z(int64(cc-g0[2])))
-	}
+	a, b, cc := gauges()
+	g := fmt.Sprintf("(Some (%s, %s, %s))", cq.Z(int64(a-g0[0])), cq.Z(int64(b-g0[1])), cq.Z(int64(cc-g0[2])))
 	return fmt.Sprintf("{| o_code := %s; o_tasks := %s; o_ents := %s; o_gauges := %s |}", cq.Ni(c), cq.List(ts), cq.List(es), g)
 }
 
@@ -240,7 +242,7 @@ func runCase(out *cq.Out, ops []oper, tag string) {
 		SourceConfig: server.MilvusSourceConfig{ReplicateChan: "rpc-chan"},
 		Packer:       msgpacker.PackerConfig{MaxCount: 2, TimerInterval: 3600000}}}
 	a, b, c := gauges()
-	g0 := [3]float64{a, b, c}
+	s.g0 = [3]float64{a, b, c}
 	s.boot()
 	ntasks := 0
 	for _, o := range ops {
@@ -267,7 +269,7 @@ func runCase(out *cq.Out, ops []oper, tag string) {
 			out.Count("fault/" + o.kind + "/" + o.fk)
 		}
 		opT = append(opT, opCoq(o))
-		obT = append(obT, s.observe(cd, ntasks, restarted, g0))
+		obT = append(obT, s.observe(cd, ntasks, restarted))
 	}
 	out.Add(fmt.Sprintf("(KHist {| c_ops := %s; c_obs := %s |})", cq.List(opT), cq.List(obT)))
 	if len(ops) >= 4 && (faults > 0 || restarted) {
@@ -315,6 +317,8 @@ func main() {
 	runCase(out, []oper{cr(1, targets[0]), {kind: "pause", k: 1, fk: "task.put", fn: 1}, {kind: "get", k: 1}, {kind: "pause", k: 1}}, "corpus: pause whose store update fails")
 	runCase(out, []oper{cr(1, targets[0]), {kind: "pause", k: 1}, {kind: "resume", k: 1, fk: "task.put", fn: 1}, {kind: "get", k: 1}, {kind: "resume", k: 1}}, "corpus: resume whose store update fails")
 	runCase(out, []oper{cr(1, targets[0]), cr(2, targets[0]), {kind: "pause", k: 1, fk: "task.get", fn: 1}, {kind: "delete", k: 2}, {kind: "restart"}}, "corpus: pause whose store read fails, then restart")
+	runCase(out, []oper{cr(1, targets[0]), cr(2, targets[0]), {kind: "pause", k: 1}, {kind: "restart", fk: "pos.get", fn: 1}, {kind: "get", k: 1}, {kind: "restart", fk: "pos.get", fn: 2}, {kind: "get", k: 2}},
+		"corpus: a paused task whose start fails at reload is paused again")
 	for id := 0; id < a.N; id++ {
 		nops := 3 + r.Intn(10)
 		var ops []oper
@@ -428,7 +432,7 @@ func main() {
 		out.Count("barrier-probe")
 		out.Extra["barrier_probe_cpu_ms_in_400ms_window"] = used
 	}
-	out.Extra["corpus_cases"] = 3
+	out.Extra["corpus_cases"] = 4
 	if err := out.Flush(); err != nil {
 		panic(err)
 	}
